@@ -5,8 +5,11 @@ recv() as its predecessor is never parsed; the connection, announced as
 
 Run:  cd /tmp/wa_C07 && PYTHONPATH=/tmp/wa_C07 /venv/bin/python _finding/1/demo.py
 """
+import os as _os
+_TREE_UNDER_TEST = _os.environ.get("GVERIF_REPO") or _os.getcwd()   # the checkout under test (was the auditing agent's scratch worktree)
+
 import sys
-sys.path.insert(0, "/tmp/wa_C07")
+sys.path.insert(0, _TREE_UNDER_TEST)
 import os
 import socket
 import subprocess
@@ -14,7 +17,7 @@ import tempfile
 import time
 
 import gunicorn
-assert gunicorn.__file__.startswith("/tmp/wa_C07/"), gunicorn.__file__
+assert gunicorn.__file__.startswith(_TREE_UNDER_TEST), gunicorn.__file__
 
 APP = '''
 def app(environ, start_response):
@@ -78,7 +81,7 @@ def main():
     with open(os.path.join(tmp, "c07app.py"), "w") as f:
         f.write(APP)
     port = free_port()
-    env = dict(os.environ, PYTHONPATH="/tmp/wa_C07" + os.pathsep + tmp)
+    env = dict(os.environ, PYTHONPATH=_TREE_UNDER_TEST + os.pathsep + tmp)
     proc = subprocess.Popen(
         [sys.executable, "-m", "gunicorn", "-k", "gthread", "--threads", "2",
          "--keep-alive", str(KEEPALIVE), "-b", "127.0.0.1:%d" % port,
